@@ -98,8 +98,10 @@ inductive Override where
 
 def Opts.merge (o : Opts) : Override → Opts
   | .none => o
-  | .strict => { o with ndl := true, nec := true }
-  | .noLoss => { o with ndl := true }
+  -- `Options(no_data_loss=True, …)` carries `addition=False` (options.py:151-155 since fix 64ecb5e); merged over
+  -- the inherited options (`__and__`) it replaces their `addition`
+  | .strict => { o with ndl := true, nec := true, addition := some false }
+  | .noLoss => { o with ndl := true, addition := some false }
 
 /-- `context.enter(route, options)` (options.py:389-405): same options (merged), fresh error lists -/
 def Ctx.enter (c : Ctx) (ov : Override := .none) : Ctx := clean0 c.mode (c.o.merge ov)
@@ -469,7 +471,10 @@ def additionStep (o : Opts) (acc : Data × Data) (kv : String × Val) : Step (Da
   | none => .keep acc                                                      -- :397-399
   | some true => .keep (acc.1, assocSet kv.1 kv.2 acc.2)                   -- :403-404
 
-/-- first loop of `data_first_parse` (base.py:436-474) -/
+/-- `data_first_parse` after C06's repair (base.py:447-546 at /repo ad95ff6).  The scan (:462-481) records what
+was given in input order; in the fragment (one key per field, distinct dict keys) it is the input itself and
+there are no alias conflicts.  This is one iteration of the loop over `inputs` (:483-513): an additional key goes
+to `parse_addition`, a field's value to `parse_value`. -/
 def dfStep1 (rec : P) (m : Mode) (o : Opts) (decl : List FieldDecl) (acc : Data × Data) (kv : String × Val) :
     Step (Data × Data) :=
   match decl.find? (fun f => f.name == kv.1) with
@@ -480,9 +485,10 @@ def dfStep1 (rec : P) (m : Mode) (o : Opts) (decl : List FieldDecl) (acc : Data 
     | .report e r => .report e (r, acc.2)
     | .abort e x => .abort e x
 
-/-- second loop of `data_first_parse` (base.py:476-490) -/
-def dfStep2 (acc : Data) (f : FieldDecl) : Step Data :=
-  if hasKey f.name acc then .keep acc
+/-- loop over the declared fields (base.py:515-527): a field that was *given* (`name in inputs`) is skipped —
+also when its value was rejected — an absent required one is reported, an absent optional one gets its default -/
+def dfStep2 (data : Data) (acc : Data) (f : FieldDecl) : Step Data :=
+  if hasKey f.name data then .keep acc
   else if f.required then .report { kind := .absence, item := some f.name } acc
   else match f.default with
     | some d => .keep (assocSet f.name d acc)
@@ -490,8 +496,8 @@ def dfStep2 (acc : Data) (f : FieldDecl) : Step Data :=
 
 def dataFirst (rec : P) (decl : List FieldDecl) (c : Ctx) (data : Data) : Ctx × Res Data :=
   andThen (runLoop (dfStep1 rec c.mode c.o decl) c data ([], [])) fun c1 acc =>
-  andThen (runLoop dfStep2 c1 decl acc.1) fun c2 res2 =>
-  (c2, .ok (res2 ++ acc.2))                                     -- :511-512 result.update(addition)
+  andThen (runLoop (dfStep2 data) c1 decl acc.1) fun c2 res2 =>
+  (c2, .ok (res2 ++ acc.2))                                     -- :544-545 result.update(addition)
 
 /-- field loop of `field_first_parse` (base.py:538-590) -/
 def ffStep1 (rec : P) (m : Mode) (o : Opts) (data : Data) (acc : Data) (f : FieldDecl) : Step Data :=
